@@ -24,6 +24,13 @@ func invertCffConstraint(exp *constraint.Expr) {
 			*exp = ex.X
 			return
 		}
+		// A double negation cannot be printed back: "!!x" does not
+		// parse as a constraint. Drop both negations.
+		if inner, ok := ex.X.(*constraint.NotExpr); ok {
+			*exp = inner.X
+			invertCffConstraint(exp)
+			return
+		}
 		invertCffConstraint(&ex.X)
 	case *constraint.OrExpr:
 		invertCffConstraint(&ex.X)
